@@ -134,3 +134,27 @@ def SplitCombine(xs: list[int], ys: list[int]):
     p = workflow.add(Pair(x=a.out, y=b.out, tag=3).combine("a.x"), name="p")
     t = workflow.add(Total(xs=p.out, tag=4), name="t")
     return t.out, p.out
+
+
+@python.define
+def AnyNode(x: ty.Any, tag: int = 0) -> ty.Any:
+    import vf.rec as R
+    R.rec("AnyNode", x, tag)
+    return x
+
+
+@workflow.define
+def LateAssign(x: int, typed: bool = True) -> ty.Any:
+    """three nodes a -> b -> c; then one late assignment node_i.inputs.x = node_j.out chosen by vf.rec.FLAGS['late']"""
+    import vf.rec as R
+    mk = (lambda v, t: Node(x=v, tag=t)) if typed else (lambda v, t: AnyNode(x=v, tag=t))
+    a = workflow.add(mk(x, 1), name="a")
+    b = workflow.add(mk(a.out, 2), name="b")
+    c = workflow.add(mk(b.out, 3), name="c")
+    nodes = [a, b, c]
+    late = R.FLAGS.get("late")
+    if late is not None:
+        i, j = late
+        wf = workflow.this()
+        wf[["a", "b", "c"][i]].inputs.x = nodes[j].out
+    return c.out
